@@ -519,6 +519,7 @@ pzgssvx(int_t nprocs, superlumt_options_t *superlumt_options, SuperMatrix *A,
     if ( A->Stype == SLU_NR ) {
 	NRformat *Astore = A->Store;
 	AA = (SuperMatrix *) SUPERLU_MALLOC( sizeof(SuperMatrix) );
+	if ( !AA ) SUPERLU_ABORT("SUPERLU_MALLOC fails for AA.");
 	zCreate_CompCol_Matrix(AA, A->ncol, A->nrow, Astore->nnz, 
 			       Astore->nzval, Astore->colind, Astore->rowptr,
 			       SLU_NC, A->Dtype, A->Mtype);
@@ -672,7 +673,10 @@ pzgssvx(int_t nprocs, superlumt_options_t *superlumt_options, SuperMatrix *A,
 	
     }
 
-    superlu_zQuerySpace(nprocs, L, U, panel_size, superlu_memusage);
+    /* L and U do not exist if the factorization ran out of memory
+       (info = bytes allocated + ncol). */
+    if ( *info <= A->ncol + 1 )
+	superlu_zQuerySpace(nprocs, L, U, panel_size, superlu_memusage);
 
     /* ------------------------------------------------------------
        Deallocate storage after factorization.
